@@ -586,6 +586,75 @@ def rule_D21(body):
     return body[:mm.start()] + new + body[end:], [("D21", re.sub(r"\s+", " ", body[mm.start():open_brace + 1])[:140] + " .. }).collect::<Result<Vec<_>, _>>()?", "{ let mut collected = Vec::new(); let mut i: usize = 0; for x in RECV.iter() { collected.push(({ .. })?); i = i + 1; } collected }")]
 
 
+def rule_D22(body):
+    """D22: `for x in RECV.chunks(N) { BODY }` is written as
+    `{ let mut chunk_start: usize = 0; while chunk_start < RECV.len() { let chunk_end: usize = if RECV.len() - chunk_start < N { RECV.len() } else { chunk_start + N };
+       let x = vstd::slice::slice_subrange(RECV, chunk_start, chunk_end); BODY chunk_start = chunk_end; } }` — the definition of `<[T]>::chunks`
+    (consecutive non-overlapping sub-slices of N items starting at the beginning, the last one shorter when the length is not a multiple of
+    N; nothing for an empty slice).  RECV a plain identifier (a slice), N an integer literal >= 1; BODY may `return` (it leaves the function
+    either way) but must not `break` / `continue`; exactly one occurrence.  Ghost anchors /*INV:chunks*/ and /*STEP:chunks*/."""
+    m = mask(body)
+    hits = list(re.finditer(r"for\s+([A-Za-z_][A-Za-z0-9_]*)\s+in\s+([A-Za-z_][A-Za-z0-9_]*)\s*\.chunks\(\s*(\d+)\s*\)\s*\{", m))
+    if len(hits) != 1:
+        raise LostAnchor(f"rule D22: `for x in RECV.chunks(N) {{` matched {len(hits)} times")
+    mm = hits[0]
+    var, recv, n = mm.group(1), mm.group(2), int(mm.group(3))
+    if n < 1:
+        raise LostAnchor("rule D22: chunk size 0")
+    open_brace = mm.end() - 1
+    close = match_close(m, open_brace)
+    blk = m[open_brace:close]
+    if re.search(r"\bbreak\b|\bcontinue\b", blk) or re.search(r"\bchunk_start\b|\bchunk_end\b", m):
+        raise LostAnchor("rule D22: loop body contains break/continue, or the names chunk_start / chunk_end are in use")
+    inner = body[open_brace + 1:close - 1]
+    new = (f"{{ let mut chunk_start: usize = 0; while chunk_start < {recv}.len() invariant chunk_start <= {recv}@.len(), /*INV:chunks*/ decreases {recv}@.len() - chunk_start "
+           f"{{ let chunk_end: usize = if {recv}.len() - chunk_start < {n} {{ {recv}.len() }} else {{ chunk_start + {n} }}; "
+           f"let {var} = vstd::slice::slice_subrange({recv}, chunk_start, chunk_end); /*STEP:chunks*/ " + inner + " chunk_start = chunk_end; } }")
+    return body[:mm.start()] + new + body[close:], [("D22", re.sub(r"\s+", " ", body[mm.start():open_brace + 1]) + " .. }", f"while chunk_start < {recv}.len() {{ let {var} = {recv}[chunk_start..min(chunk_start + {n}, len)]; .. chunk_start = chunk_end; }}")]
+
+
+def rule_D23(body):
+    """D23: `RECV.iter().enumerate().fold(INIT, |acc, (i, x)| BODY)` is written as
+    `({ let mut acc = INIT; let mut i: usize = 0; for x in it_efold: RECV.iter() { acc = BODY; i = i + 1; } acc })` — Iterator::fold over Enumerate
+    (counter from 0).  RECV a plain identifier; BODY without return/break/continue/? and without assignment to the counter; exactly one
+    occurrence.  Ghost anchors /*INV:efold*/ /*STEP:efold*/; the counter is tied to the ghost iterator (`i == it_efold.index@`)."""
+    m = mask(body)
+    hits = list(re.finditer(r"([A-Za-z_][A-Za-z0-9_]*)\s*\.iter\(\)\s*\.enumerate\(\)\s*\.fold\(", m))
+    if len(hits) != 1:
+        raise LostAnchor(f"rule D23: `.iter().enumerate().fold(` matched {len(hits)} times")
+    mm = hits[0]
+    call_open = mm.end() - 1
+    call_close = match_close(m, call_open) - 1
+    inner_m, inner = m[call_open + 1:call_close], body[call_open + 1:call_close]
+    d, cut = 0, None
+    for i, ch in enumerate(inner_m):
+        if ch in "([{":
+            d += 1
+        elif ch in ")]}":
+            d -= 1
+        elif ch == "," and d == 0:
+            cut = i
+            break
+    if cut is None:
+        raise LostAnchor("rule D23: fold without initial value")
+    init = inner[:cut].strip()
+    cm = re.match(r"\s*\|\s*([A-Za-z_][A-Za-z0-9_]*)\s*,\s*\(\s*([A-Za-z_][A-Za-z0-9_]*)\s*,\s*([A-Za-z_][A-Za-z0-9_]*)\s*\)\s*\|\s*", inner_m[cut + 1:])
+    if not cm:
+        raise LostAnchor("rule D23: fold closure is not `|acc, (i, x)| ..`")
+    acc, idx, var = cm.groups()
+    cbody = inner[cut + 1 + cm.end():].strip()
+    if cbody.endswith(","):
+        cbody = cbody[:-1].rstrip()
+    mc = mask(cbody)
+    if re.search(r"\breturn\b|\bbreak\b|\bcontinue\b|\?", mc) or re.search(r"\b" + idx + r"\s*(\+|-|\*)?=[^=]", mc):
+        raise LostAnchor("rule D23: fold closure contains return/break/continue/? or assigns the counter")
+    recv = mm.group(1)
+    new = (f"({{ let mut {acc} = {init}; let mut {idx}: usize = 0; let ghost seq_efold = {recv}@; for {var} in it_efold: {recv}.iter() invariant it_efold.seq().len() == seq_efold.len(), "
+           f"forall|i_: int| 0 <= i_ < it_efold.seq().len() ==> *(#[trigger] it_efold.seq()[i_]) == seq_efold[i_], {idx} == it_efold.index@, /*INV:efold*/ "
+           f"{{ /*STEP:efold*/ {acc} = {cbody}; {idx} = {idx} + 1; }} {acc} }})")
+    return body[:mm.start()] + new + body[call_close + 1:], [("D23", re.sub(r"\s+", " ", body[mm.start():call_close + 1])[:160], f"{{ let mut {acc} = {init}; let mut {idx} = 0; for {var} in {recv}.iter() {{ {acc} = ..; {idx} = {idx} + 1; }} {acc} }}")]
+
+
 def rule_D5b(body):
     """D5 (closure body): `.map(|x| EXPR)` with EXPR not a block is written `.map(|x| { EXPR })`, so that a ghost
     signature can be attached to the closure; same value.  Every occurrence, at least one."""
@@ -653,7 +722,7 @@ def rule_D4t(body):
     return pat.sub("range_from_element(", body), [("D4", "<Option<&SubtypeElements> as TryInto<PerVisibleRangeConstraints>>::try_into(", "range_from_element(")] * n
 
 
-RULES = {"D2": rule_D2, "D5": rule_D5, "D5c": rule_D5c, "D5m": rule_D5m, "D9": rule_D9, "D4t": rule_D4t, "D10": rule_D10, "D5b": rule_D5b, "D12": rule_D12, "D13": rule_D13, "D14": rule_D14, "D15": rule_D15, "D15s": rule_D15s, "D12s": rule_D12s, "D12m": rule_D12m, "D17": rule_D17, "D18": rule_D18, "D19": rule_D19, "D20": rule_D20, "D21": rule_D21}
+RULES = {"D2": rule_D2, "D5": rule_D5, "D5c": rule_D5c, "D5m": rule_D5m, "D9": rule_D9, "D4t": rule_D4t, "D10": rule_D10, "D5b": rule_D5b, "D12": rule_D12, "D13": rule_D13, "D14": rule_D14, "D15": rule_D15, "D15s": rule_D15s, "D12s": rule_D12s, "D12m": rule_D12m, "D17": rule_D17, "D18": rule_D18, "D19": rule_D19, "D20": rule_D20, "D21": rule_D21, "D22": rule_D22, "D23": rule_D23}
 
 
 class FnUnit:
